@@ -205,7 +205,10 @@ func (o *monOutput) send(b *pipeline.Batch) error {
 			pids = append(pids, "P:"+o.eng.idByOffset(uint64(e.SourceID), e.Offset))
 		}
 	}
-	b.ForEach(func(e *pipeline.Event) { ids = append(ids, eventID(e)) })
+	b.ForEach(func(e *pipeline.Event) {
+		ids = append(ids, o.eng.stableID(e))
+		_ = eventID(e) // an output reads the event's JSON tree (encode): keep that access
+	})
 	o.eng.rec.add(Rec{K: "send.call", Out: o.name, Batch: seq, Att: att, IDs: append(ids, pids...)})
 	if n := len(o.spec.DelayUs); n > 0 {
 		if d := o.spec.DelayUs[int(seq)%n]; d > 0 {
@@ -254,7 +257,7 @@ func (o *monOutput) Start(_ pipeline.AnyConfig, params *pipeline.OutputPluginPar
 				ids = append(ids, "P:"+o.eng.idByOffset(uint64(e.SourceID), e.Offset))
 				continue
 			}
-			ids = append(ids, eventID(e))
+			ids = append(ids, o.eng.stableID(e))
 		}
 		o.eng.rec.add(Rec{K: "giveup", Out: o.name, IDs: ids, OK: o.router.IsDeadQueueAvailable()})
 		for i := range events {
@@ -279,4 +282,15 @@ func (o *monOutput) Stop() {
 	o.cancel()
 }
 
-func (o *monOutput) Out(e *pipeline.Event) { o.add(e) }
+func (o *monOutput) Out(e *pipeline.Event) {
+	if o.name == "dlq" {
+		id := ""
+		if e.IsChildParentKind() || e.Root == nil {
+			id = "P:" + o.eng.idByOffset(uint64(e.SourceID), e.Offset)
+		} else {
+			id = o.eng.stableID(e)
+		}
+		o.eng.rec.add(Rec{K: "dlq.out", ID: id})
+	}
+	o.add(e)
+}
